@@ -2,7 +2,10 @@ package request
 
 import (
 	"encoding/hex"
+	"fmt"
 	"strings"
+
+	"github.com/ethereum/go-ethereum/crypto"
 
 	"github.com/vipnode/vipnode/v2/internal/verifapi"
 )
@@ -48,7 +51,22 @@ func VerifC04Hash() {
 	}
 	verifapi.Assert(Verify(sig, method, id, nonce, arg, extra) == nil, "c04.hash.own-signature-verifies")
 	// each single alteration is refused
-	switch verifapi.Choose("alteration", 10) {
+	switch verifapi.Choose("alteration", 11) {
+	case 10: // a wallet that signs as wallets do (personal_sign: keccak256("\x19Ethereum Signed Message:\n" +
+		// byte length + message)), independently of this package's Sign, a request with a non-ASCII parameter
+		if style == 1 {
+			a2 := verifArgs{Kind: "g\u00ebth-\u4e2d", Num: arg.Num}
+			msg, merr := assemble(method, id, nonce, a2, extra)
+			if merr != nil {
+				verifapi.Unreachable("c04.assemble")
+				return
+			}
+			pre := []byte(fmt.Sprintf("\x19Ethereum Signed Message:\n%d", len(msg)))
+			sigb, serr := crypto.Sign(crypto.Keccak256(append(pre, msg...)), verifKey(id))
+			if serr == nil {
+				verifapi.Assert(Verify(hex.EncodeToString(sigb), method, id, nonce, a2, extra) == nil, "c04.hash.wallet-standard-signature-verifies")
+			}
+		}
 	case 9: // an identity that names nobody - empty, or only the tail of an address, with or without 0x -
 		// signed by some key: no key is "the key of the identity it names"
 		signer := verifapi.Wallet(1)
